@@ -23,13 +23,15 @@ RULE_TEXT = (
     'an obligation is one (construct, clause) item; non-trivial = discharged by guard extraction, kind inference or read-set analysis'
 )
 EXPLANATION = (
-    'STRUCTURAL NECESSARY CONDITIONS ONLY. Decided: pytree-valued and 0-d values are refused; the constructor ends, once every field is '
+    'Decided: (D7) the placement itself - constructor, mv and as_matrix are evaluated over abstract arrays (axes labelled by provenance) for every order '
+    'type of the requested axes with values and leaves of rank 1-3 (scalar, tuple, negative, extending axes) and, for ranks 1-2, axes of size one: the '
+    'product has input axis j at L+j, values axis k at L+axes[k] and the NumPy broadcast shape; the strict variant raises exactly when that shape is not '
+    'the shape of the leaf; colliding axes raise. Bounded in rank (uniform code: the arithmetic only compares, adds and sorts the axes). Also: pytree-valued and 0-d values are refused; the constructor ends, once every field is '
     'set, with an abstract evaluation of mv, so duplicated or incompatible axes surface at construction; the strict variant raises '
     'whenever the broadcast shape differs from the input leaf shape and the inherited mv reaches that check on every leaf; mv is '
     '(values reshaped/moved) * (leaf reshaped) and nothing else (kind RScale); mv and its helpers read only the values, the axes and the '
     'input (no module state, no configuration, no other field); the inverse re-uses values/axes/structure with a guarded reciprocal. '
-    'NOT decided: the axis normalisation / padding / moveaxis arithmetic itself (index arithmetic over runtime ranks), i.e. that the '
-    'values land on the requested axes - the first sentence of the property is value-level.'
+    'NOT decided: ranks above three, the numerical product itself (element-wise multiplication is trusted).'
 )
 
 
